@@ -135,6 +135,35 @@ def rule_open_permit(ctx):
         r = cfg.reach_from([head], avoid_edges=frozenset(e))
         ok = bool(e) and o["bb"] not in r
         ctx.ob(R, "send_open #%d" % i, ok, "dominated within the iteration by a successful limiter.acquire" if ok else "an OPEN frame can be sent without a rate-limiter permit in this iteration", f.loc(o["t"].get("ln")))
+    # the permit is a *reservation*: it is consumed (and starts refilling) when it is dropped. It has to stay alive until
+    # the transient stream of this iteration has been handed to the user - dropped earlier (`let _ = ..acquire()..`),
+    # idle streams that already sent OPEN hold no reservation and the server can start INFLIGHT + burst calls at once.
+    cfgn = ctx.cfg(f, with_cancel=False)
+    hand = [c["bb"] for c in T.calls() if c["q"].endswith("oneshot::Sender::send") and any(f.ty(i).s.endswith("transient_stream::Stream") for i in c["t"]["f"].get("ga", []))]
+    plocals = [i for i, ty in enumerate(f.locals) if ty.s.startswith(LIM + "::Permit")]
+    ctx.floor(R, "locals holding the OPEN permit", len(plocals), 1)
+    ctx.floor(R, "stream hand-over sites in the loop body", len(hand), 1)
+    moved_at = {}
+    for bi, b in enumerate(f.blocks):
+        for st in b["s"]:
+            if st["k"] == "assign":
+                for o in [st["r"].get("o")] + list(st["r"].get("ops", [])):
+                    if isinstance(o, dict) and "m" in o and not o["m"].get("pr") and o["m"]["l"] in plocals:
+                        moved_at.setdefault(o["m"]["l"], []).append(bi)
+    early = []
+    for bi, b in enumerate(f.blocks):
+        t = b["t"]
+        if t["k"] == "drop" and not t["p"].get("pr") and t["p"]["l"] in plocals and not b.get("cleanup"):
+            l = t["p"]["l"]
+            # a drop of a local whose value was moved out on every path to it is a no-op (removed by drop elaboration)
+            if any(cfgn.dominates(m, bi) for m in moved_at.get(l, [])):
+                continue
+            nxt = [y for _, y in cfgn.succ[bi]]
+            r = cfgn.reach_from(nxt, avoid_blocks=frozenset([head]))
+            if set(hand) & r:
+                early.append(bi)
+    ctx.ob(R, "permit held until the stream is handed over", not early and bool(hand), "no drop of the permit precedes the hand-over of the transient stream within the iteration" if not early and hand else
+           "the limiter permit is dropped (consumed) before the transient stream of this iteration is handed over: waiting streams hold no reservation, so after an idle period more than `burst` calls can start at once", f.loc())
     acq = [T.args_of(c) for c in T.calls() if c["q"] == LIM + "::Limiter::acquire"]
     ok = bool(acq) and all(a[2] == ("const", 1) and chain(a[0])[1][-1:] == ["limiter"] and "stream_queue" in show(a[0]) for a in acq)
     ctx.ob(R, "permit amount", ok, "self.stream_queue.limiter.acquire(ctx, 1)" if ok else "acquire arguments: %s" % [[show(x) for x in a] for a in acq], f.loc())
